@@ -67,6 +67,12 @@ def _tab_leaves(ck):
         leaves.append({"reg": 0, "s": s, "cls": "compound", "dkey": None, "co": s[0].isdigit()})
     for s in CUSTOM:
         leaves.append({"reg": 3, "s": s, "cls": "custom", "dkey": None})
+    # a second registry that defines the same code-unit names differently (ratios with expression 1 and scale != 1)
+    for s in ["code_length", "code_mass", "code_time", "h", "code_mass/code_length**3", "code_length/code_time"]:
+        leaves.append({"reg": 6, "s": s, "cls": "custom2", "dkey": None})
+    # units GIVEN with a scale that is xv times what their expression resolves to (Unit(expr, base_value=..., dimensions=...))
+    for s, xv in [("1", 0.5), ("1", 1000.0), ("dimensionless", 0.25), ("m", 3.0), ("km/m", 0.001), ("s", 0.25), ("kg*m**2/s**2", 7.0), ("1/s", 0.001)]:
+        leaves.append({"reg": 0, "s": s, "cls": "explicit", "dkey": None, "xv": xv})
     return leaves, dc
 
 
@@ -112,8 +118,13 @@ def _submit_validation(ck, pool, cases, obs, mode, common, jobs):
     if bad:
         raise MachineryFailure("replay error: " + json.dumps(bad[0])[:800])
     workers = max(1, min(4, NCPU))
-    cfg = open(ck.spec + "/Trace_C05.cfg").read().replace("Stripes = 8", f"Stripes = {workers}")
-    open(ck.spec + f"/Trace_C05_run_{workers}.cfg", "w").write(cfg)
+    with _PMAP_LOCK:  # written once: another TLC may be reading it
+        run_cfg = ck.spec + f"/Trace_C05_run_{workers}.cfg"
+        if not os.path.exists(run_cfg):
+            cfg = open(ck.spec + "/Trace_C05.cfg").read().replace("Stripes = 8", f"Stripes = {workers}")
+            with open(run_cfg + ".tmp", "w") as f:
+                f.write(cfg)
+            os.replace(run_cfg + ".tmp", run_cfg)
     size = max(400, min(3000, len(obs) // max(1, NCPU // workers) + 1))
     for n, (cc, oo) in enumerate(_chunks(cases, obs, size)):
         jobs.append((mode, common, cc, oo, pool.submit(_tlc_trace, ck, oo, mode, n, workers)))
@@ -285,13 +296,13 @@ def _tab_cases(ck, seed):
     leaves = kept
     tabpath = ck.write_json("tab.json", [{"dc": l["dc"], "co": bool(l.get("co", False))} for l in leaves])
     consts = ck.q(
-        {"Seed": seed, "PairN": 5, "TripleN": 3, "PowN": 3, "PowMulN": 3, "SimpN": 3, "RuleN": 4, "HistN": 0, "CoefN": 2, "EqN": 4},
+        {"Seed": seed, "PairN": 5, "TripleN": 3, "PowN": 3, "PowMulN": 3, "SimpN": 3, "RuleN": 4, "HistN": 0, "CoefN": 2, "EqN": 0},
         {"Seed": seed, "PairN": 0, "TripleN": 60, "PowN": 40, "PowMulN": 60, "SimpN": 40, "RuleN": 40, "HistN": 0, "CoefN": 30, "EqN": 0},
     )
     res, tcases = _mc(ck, "TAB", consts, env={"TAB": tabpath}, label=f"TAB instance over {len(leaves)} table leaves {consts}: tuple enumeration")
     if len(tcases) < 500:
         raise MachineryFailure("TAB instance: too few cases")
-    tobs = _pmap(ck, "impl_c05", "observe", tcases, nproc=max(2, NCPU // 2), common={"mode": "TAB", "tab": leaves})
+    tobs = _pmap(ck, "impl_c05", "observe", tcases, nproc=max(2, NCPU // 2) if ck.tier == "quick" else NCPU, chunk_timeout=ck.q(900, 10800), common={"mode": "TAB", "tab": leaves})
     return leaves, tcases, consts, uncovered, tobs
 
 
@@ -350,8 +361,9 @@ def run(ck):
         ck.sample({"registry_history": {k: hist[len(hist) // 2][k] for k in ("lv", "p", "edits")}})
         # histories first (they are the long poles of the replay), then the single-state cases
         plain = [c for c in cases if c["law"] != "state"]
-        f_hist = pool.submit(_pmap, ck, "impl_c05", "observe", hist, nproc=max(2, NCPU // 2), common=common)
-        f_plain = pool.submit(_pmap, ck, "impl_c05", "observe", plain, nproc=max(2, NCPU // 2), common=common)
+        np_ = max(2, NCPU // 2) if ck.tier == "quick" else NCPU
+        f_hist = pool.submit(_pmap, ck, "impl_c05", "observe", hist, nproc=np_, chunk_timeout=ck.q(900, 10800), common=common)
+        f_plain = pool.submit(_pmap, ck, "impl_c05", "observe", plain, nproc=np_, chunk_timeout=ck.q(900, 10800), common=common)
         hc, ho = _flatten(hist, f_hist.result())
         _submit_validation(ck, pool, hc, ho, "MR", common, jobs)
         obs = f_plain.result()
@@ -367,7 +379,7 @@ def run(ck):
         ck.sample({"tab_case": {"law": tcases[len(tcases) // 3]["law"], "leaves": [leaves[i - 1]["s"] for i in tcases[len(tcases) // 3]["lv"]]}})
         _submit_validation(ck, pool, tcases, tobs, "TAB", tcommon, jobs)
         ck.cov["tab_cases_by_law"] = _bylaw(tcases)
-        ck.cov["tab_leaves"] = {k: sum(1 for l in leaves if l["cls"] == k) for k in ("atom", "prefixed", "compound", "custom")}
+        ck.cov["tab_leaves"] = {k: sum(1 for l in leaves if l["cls"] == k) for k in ("atom", "prefixed", "compound", "custom", "custom2", "explicit")}
         n_eval += len(tcases)
 
         nontrivial = _draw_verdicts(ck, jobs)
